@@ -121,6 +121,25 @@ pub fn run(ctx: &Ctx) -> Report {
                 cases.push(Case { spec, h });
             }
         }
+        if maxlen == 2 {
+            // quick tier: also [setting; lender; any] — a retained pointer may only be used in a
+            // particular driver mode (quick refresh, non-default LUT / background)
+            let setters: Vec<usize> = (0..syms.len()).filter(|i| syms[*i].iter().all(|o| matches!(o.k, K::SetRefresh | K::SetLut | K::SetBg))).collect();
+            for h in histories(spec, &syms, 3) {
+                if !setters.contains(&h[0]) {
+                    continue;
+                }
+                let lender = syms[h[1]].iter().any(|o| o.img != Img::None);
+                if !lender {
+                    continue;
+                }
+                // thin out on the large panels
+                if spec.w * spec.h > 300 * 400 && rng.below(4) != 0 {
+                    continue;
+                }
+                cases.push(Case { spec, h });
+            }
+        }
         if ctx.mode == "miri" {
             // Miri is ~4 orders of magnitude slower: only pairs whose buffers are small, those in
             // which both symbols lend a buffer first (a retained pointer is re-read by the second)
